@@ -15,7 +15,7 @@ CLAUSE = {1: "first-read-default", 2: "read-notified", 3: "default-method-twice"
           9: "default-not-stored", 10: "harness-digest", 11: "read-raised", 20: "declared-class-tables"}
 CONTAINER = ("KListCopy", "KDictCopy", "KTraitList", "KTraitDict", "KTraitSet", "KArray")
 KINDS = ["KConst", "KListCopy", "KDictCopy", "KTraitList", "KTraitDict", "KTraitSet", "KFactory", "KMethod",
-         "KTuple", "KUnion", "KMethodInt", "KTuple2", "KArray"]
+         "KTuple", "KUnion", "KMethodInt", "KTuple2", "KArray", "KUuid"]
 
 
 # ---- declared class tables (what the configuration says; compared in Coq with what the driver observed)
@@ -53,6 +53,12 @@ def declared(case):
             special.append([n + 3000, tdef("KConst", [wild["default"]], 0, 0, 1, True)])
         special.append([-3, tdef("KConst", [wild["default"]], 0, 0, 0, False)])
     ta = tdef("KEvent", [], 0, 0, 1, True)      # HasTraits' own static handler of trait_added
+    if case.get("anytrait"):
+        # `_anytrait_changed` is a notifier of every class trait (also of the items events and of trait_added)
+        for _, d in rows0:
+            d["nnotif"] += 1
+        ta["nnotif"] += 1
+        special.append([-4, tdef("KEvent", [], 0, 0, 0, False)])
     rows0 += special
     rows0.append([-1, ta])
     over = {o["name"]: o for o in case["sub"]}
@@ -181,6 +187,8 @@ def gen_content(rnd, kind, like=None):
         return out
     if kind == "KTraitSet":
         return sorted(rnd.sample(range(1, 9), rnd.randint(0, 3)))
+    if kind == "KUuid":
+        return []
     if kind == "KArray":
         return list(like) if like is not None and rnd.random() < 0.5 else [rnd.randint(0, 9) for _ in range(len(like) if like is not None else rnd.randint(1, 3))]
     return [rnd.randint(0, 9) for _ in range(rnd.randint(0, 3))]
@@ -223,8 +231,11 @@ def gen_case(rnd, ctx, maxlen):
     if rnd.random() < 0.4:
         wild = dict(default=rnd.randint(0, 9), names=[60, 61, 62], static=rnd.choice([[60], [61], [60, 62], []]))
         ctx.count("wildcard-trait")
+    anytrait = wild is None and rnd.random() < 0.3      # a class-level _anytrait_changed(self, name, old, new)
+    if anytrait:
+        ctx.count("class-level-anytrait-handler")
     shared_ct = None
-    if wild is None and rnd.random() < 0.3:
+    if wild is None and not anytrait and rnd.random() < 0.3:
         shared_ct = dict(value=rnd.randint(0, 9), names=[70, 71], static=rnd.choice([[70], [71], []]))
         ctx.count("shared-ctrait-in-class-body")
     ops = [["NewInst", rnd.randint(0, 1)] for _ in range(rnd.randint(2, 3))]
@@ -249,7 +260,7 @@ def gen_case(rnd, ctx, maxlen):
         return traits[n]["content"]
 
     def assignable(n):
-        return True
+        return n >= len(traits) or traits[n]["kind"] != "KUuid"      # a UUID trait is read-only
 
     mat = [set() for _ in ops]              # attributes certainly in __dict__ (read, mutated or assigned before)
     dirty = set()                           # (instance, name) of two-list tuples whose second list was mutated
@@ -299,7 +310,7 @@ def gen_case(rnd, ctx, maxlen):
             if rnd.random() < 0.25:
                 op = ["Register", i, -2, hid[0], False]        # on_trait_change(handler): every trait of the object
                 ctx.count("register:object-level")
-        elif r < 0.73:
+        elif r < 0.73 and assignable(n):
             op = ["Delete", i, n]                # del obj.n: with listeners the default is recomputed and stored
         elif r < 0.80 and extra[i]:
             op = ["SetMeta", i, rnd.choice(sorted(extra[i])), rnd.randint(1, 9)]    # metadata of an added trait
@@ -355,6 +366,8 @@ def gen_case(rnd, ctx, maxlen):
         case["wild"] = wild
     if shared_ct:
         case["shared_ct"] = shared_ct
+    if anytrait:
+        case["anytrait"] = True
     return case
 
 
@@ -362,18 +375,18 @@ def all_kinds_case(static):
     traits = [dict(name=n, kind=k, content=c, scalar=3, static=static) for n, (k, c) in enumerate([
         ("KConst", [5]), ("KListCopy", [1, 2]), ("KDictCopy", [1, 1]), ("KTraitList", [1, 2]), ("KTraitDict", [1, 1]),
         ("KTraitSet", [1]), ("KFactory", [9]), ("KMethod", [7]), ("KTuple", [4]), ("KUnion", [6]), ("KMethodInt", [4]),
-        ("KTuple2", [2]), ("KArray", [1, 2])])]
-    traits[-1]["cmp"] = "identity"
+        ("KTuple2", [2]), ("KArray", [1, 2]), ("KUuid", [])])]
+    traits[-2]["cmp"] = "identity"
     sub = [dict(name=0, how="const", content=[6]), dict(name=3, how="list", content=[3]),
            dict(name=7, how="method", content=[8])]
     ops = [["NewInst", 0], ["NewInst", 1], ["NewInst", 0]]
-    for n in range(13):
+    for n in range(14):
         ops += [["Read", 0, n], ["Read", 0, n], ["Mutate", 0, n, 100 + n], ["Read", 1, n], ["Mutate", 1, n, 200 + n]]
     ops += [["Register", 0, 3, 1, False], ["Register", 1, 7, 2, True], ["Assign", 0, 3, [1], 0], ["Assign", 1, 7, [2], 0],
             ["Assign", 1, 0, [6], 0], ["Assign", 1, 0, [7], 0], ["Assign", 2, 10, [4], 0], ["Assign", 2, 10, [5], 0],
             ["AddTrait", 0, 50, dict(kind="KTraitList", content=[4, 4])], ["AddTrait", 0, 0, dict(kind="KConst", content=[77])],
             ["Read", 0, 50], ["Read", 0, 0], ["NewInst", 1], ["NewInst", 0]]
-    for n in range(13):
+    for n in range(14):
         ops += [["Read", 2, n], ["Read", 3, n], ["Read", 4, n], ["Read", 4, n]]
     return dict(traits=traits, sub=sub, ops=ops)
 
@@ -497,8 +510,16 @@ def delete_case():
     return dict(traits=traits, sub=[], ops=ops)
 
 
+def anytrait_case():
+    """A class-level `_anytrait_changed`: first reads stay silent for every default kind; assignments, deletions,
+    in-place mutations and add_trait behave as with any other listener."""
+    c = all_kinds_case(False)
+    c["anytrait"] = True
+    return c
+
+
 def corpus():
-    return [delete_case(), definitions_case(), wildcard_case(), all_kinds_case(False), all_kinds_case(True), sharing_case(), object_level_case(),
+    return [anytrait_case(), delete_case(), definitions_case(), wildcard_case(), all_kinds_case(False), all_kinds_case(True), sharing_case(), object_level_case(),
             comparison_mode_case("none"), comparison_mode_case("identity"), handover_case()]
 
 
@@ -518,12 +539,12 @@ def run(ctx):
                        "double reads on the last instance; a case is non-trivial if >= 2 instances exist and some step "
                        "returns a container object; distinct = distinct (configuration, history)")
     rnd = random.Random(ctx.seed)
-    n, maxlen = (150, 12) if ctx.tier == "quick" else (2500, 30)
+    n, maxlen = (120, 12) if ctx.tier == "quick" else (2500, 30)
     if ctx.replay:
         cases = [json.load(open(ctx.replay))["replay"]["case"]]
     else:
         cases = corpus() + [gen_case(rnd, ctx, maxlen) for _ in range(n)]
-    for c in cases[5:8] + cases[-1:]:   # evidence samples: two corpus cases, one random, the last random
+    for c in cases[6:9] + cases[-1:]:   # evidence samples: two corpus cases, one random, the last random
         ctx.sample(c)
     _evaluate = hist.evaluate
 
